@@ -40,4 +40,5 @@ def run(ctx, rep):
     builtins.rule_rounded_digits_exact(ctx, rep, "C18-R16")
     optargs.rule_argument_checked_first(ctx, rep, "C18-R17", ("_make_number_method",))
     operators.rule_fmod_parity(ctx, rep, "C18-R18")
+    textparse.rule_case_mapped_lookup_is_ascii(ctx, rep, "C18-R19")
     textparse.rule_host_pattern_end_anchor(ctx, rep, "C18-R14", modules=("context", "values"), only=lambda q: _in_family(q) or q.startswith("values:to_number") or q.startswith("values:parse_float"))
